@@ -110,6 +110,7 @@ structure SInvL (s : St) (l : List Nat) : Prop where
   clr : ∀ t a r, s.pc t = .popClr a r → Pub s a ∧ a ∉ l
   tk : ∀ a, a ∈ l → s.taken a = none ∧ s.elim a = false
   priv : ∀ t n, pushNodeC (s.pc t) (s.status t) = some n → s.taken n = none ∧ s.elim n = false
+  tklt : ∀ a, s.cnt ≤ a → s.taken a = none ∧ s.elim a = false
 
 def SInv (s : St) : Prop := ∃ l, SInvL s l
 
@@ -152,7 +153,7 @@ set_option maxHeartbeats 4000000 in
 theorem sinvl_step_pushLd {s s' : St} {t : Tid} {ev : Ev} {l : List Nat} {n : Nat}
     (h : SInvL s l) (he : EInv s) (hpc : s.pc t = .pushLd n) (hs : step s t = some (s', ev)) :
     ∃ l', SInvL s' l' ∧ StepEff s t s' l l' ∧ Shape s s' t l l' := by
-  obtain ⟨hch, hnd, hpub, hfr, hown, hlk, hcx, hnx, hcl, htk, hpv⟩ := h
+  obtain ⟨hch, hnd, hpub, hfr, hown, hlk, hcx, hnx, hcl, htk, hpv, htl⟩ := h
   obtain ⟨e1, e2, e3, e4, e5, e6, e7, e8⟩ := he
   simp only [step, hpc] at hs
   simp at hs; obtain ⟨rfl, -⟩ := hs
@@ -166,7 +167,7 @@ set_option maxHeartbeats 4000000 in
 theorem sinvl_step_pushSt {s s' : St} {t : Tid} {ev : Ev} {l : List Nat} {n : Nat} {tv : Option Nat}
     (h : SInvL s l) (he : EInv s) (hpc : s.pc t = .pushSt n tv) (hs : step s t = some (s', ev)) :
     ∃ l', SInvL s' l' ∧ StepEff s t s' l l' ∧ Shape s s' t l l' := by
-  obtain ⟨hch, hnd, hpub, hfr, hown, hlk, hcx, hnx, hcl, htk, hpv⟩ := h
+  obtain ⟨hch, hnd, hpub, hfr, hown, hlk, hcx, hnx, hcl, htk, hpv, htl⟩ := h
   obtain ⟨e1, e2, e3, e4, e5, e6, e7, e8⟩ := he
   simp only [step, hpc] at hs
   simp at hs; obtain ⟨rfl, -⟩ := hs
@@ -182,7 +183,7 @@ set_option maxHeartbeats 4000000 in
 theorem sinvl_step_pushCas {s s' : St} {t : Tid} {ev : Ev} {l : List Nat} {n : Nat} {tv : Option Nat}
     (h : SInvL s l) (he : EInv s) (hpc : s.pc t = .pushCas n tv) (hs : step s t = some (s', ev)) :
     ∃ l', SInvL s' l' ∧ StepEff s t s' l l' ∧ Shape s s' t l l' := by
-  obtain ⟨hch, hnd, hpub, hfr, hown, hlk, hcx, hnx, hcl, htk, hpv⟩ := h
+  obtain ⟨hch, hnd, hpub, hfr, hown, hlk, hcx, hnx, hcl, htk, hpv, htl⟩ := h
   obtain ⟨e1, e2, e3, e4, e5, e6, e7, e8⟩ := he
   simp only [step, hpc] at hs
   split at hs
@@ -212,7 +213,7 @@ set_option maxHeartbeats 4000000 in
 theorem sinvl_step_popLd1 {s s' : St} {t : Tid} {ev : Ev} {l : List Nat} 
     (h : SInvL s l) (he : EInv s) (hpc : s.pc t = .popLd1 ) (hs : step s t = some (s', ev)) :
     ∃ l', SInvL s' l' ∧ StepEff s t s' l l' ∧ Shape s s' t l l' := by
-  obtain ⟨hch, hnd, hpub, hfr, hown, hlk, hcx, hnx, hcl, htk, hpv⟩ := h
+  obtain ⟨hch, hnd, hpub, hfr, hown, hlk, hcx, hnx, hcl, htk, hpv, htl⟩ := h
   obtain ⟨e1, e2, e3, e4, e5, e6, e7, e8⟩ := he
   simp only [step, hpc] at hs
   simp at hs; obtain ⟨rfl, -⟩ := hs
@@ -226,7 +227,7 @@ set_option maxHeartbeats 4000000 in
 theorem sinvl_step_popLd2 {s s' : St} {t : Tid} {ev : Ev} {l : List Nat} {p : Option Nat}
     (h : SInvL s l) (he : EInv s) (hpc : s.pc t = .popLd2 p) (hs : step s t = some (s', ev)) :
     ∃ l', SInvL s' l' ∧ StepEff s t s' l l' ∧ Shape s s' t l l' := by
-  obtain ⟨hch, hnd, hpub, hfr, hown, hlk, hcx, hnx, hcl, htk, hpv⟩ := h
+  obtain ⟨hch, hnd, hpub, hfr, hown, hlk, hcx, hnx, hcl, htk, hpv, htl⟩ := h
   obtain ⟨e1, e2, e3, e4, e5, e6, e7, e8⟩ := he
   simp only [step, hpc] at hs
   split at hs
@@ -263,7 +264,7 @@ set_option maxHeartbeats 4000000 in
 theorem sinvl_step_popNext {s s' : St} {t : Tid} {ev : Ev} {l : List Nat} {a : Nat}
     (h : SInvL s l) (he : EInv s) (hpc : s.pc t = .popNext a) (hs : step s t = some (s', ev)) :
     ∃ l', SInvL s' l' ∧ StepEff s t s' l l' ∧ Shape s s' t l l' := by
-  obtain ⟨hch, hnd, hpub, hfr, hown, hlk, hcx, hnx, hcl, htk, hpv⟩ := h
+  obtain ⟨hch, hnd, hpub, hfr, hown, hlk, hcx, hnx, hcl, htk, hpv, htl⟩ := h
   obtain ⟨e1, e2, e3, e4, e5, e6, e7, e8⟩ := he
   simp only [step, hpc] at hs
   simp at hs; obtain ⟨rfl, -⟩ := hs
@@ -277,7 +278,7 @@ set_option maxHeartbeats 4000000 in
 theorem sinvl_step_popCas {s s' : St} {t : Tid} {ev : Ev} {l : List Nat} {a : Nat} {nx : Option Nat}
     (h : SInvL s l) (he : EInv s) (hpc : s.pc t = .popCas a nx) (hs : step s t = some (s', ev)) :
     ∃ l', SInvL s' l' ∧ StepEff s t s' l l' ∧ Shape s s' t l l' := by
-  obtain ⟨hch, hnd, hpub, hfr, hown, hlk, hcx, hnx, hcl, htk, hpv⟩ := h
+  obtain ⟨hch, hnd, hpub, hfr, hown, hlk, hcx, hnx, hcl, htk, hpv, htl⟩ := h
   obtain ⟨e1, e2, e3, e4, e5, e6, e7, e8⟩ := he
   simp only [step, hpc] at hs
   split at hs
@@ -311,7 +312,7 @@ set_option maxHeartbeats 4000000 in
 theorem sinvl_step_popClr {s s' : St} {t : Tid} {ev : Ev} {l : List Nat} {a : Nat} {r : GRet}
     (h : SInvL s l) (he : EInv s) (hpc : s.pc t = .popClr a r) (hs : step s t = some (s', ev)) :
     ∃ l', SInvL s' l' ∧ StepEff s t s' l l' ∧ Shape s s' t l l' := by
-  obtain ⟨hch, hnd, hpub, hfr, hown, hlk, hcx, hnx, hcl, htk, hpv⟩ := h
+  obtain ⟨hch, hnd, hpub, hfr, hown, hlk, hcx, hnx, hcl, htk, hpv, htl⟩ := h
   obtain ⟨e1, e2, e3, e4, e5, e6, e7, e8⟩ := he
   simp only [step, hpc] at hs
   simp at hs; obtain ⟨rfl, -⟩ := hs
@@ -327,7 +328,7 @@ set_option maxHeartbeats 4000000 in
 theorem sinvl_step_bkSt {s s' : St} {t : Tid} {ev : Ev} {l : List Nat} {c : Ctx} {sl : Nat} {k : Nat}
     (h : SInvL s l) (he : EInv s) (hpc : s.pc t = .bkSt c sl k) (hs : step s t = some (s', ev)) :
     ∃ l', SInvL s' l' ∧ StepEff s t s' l l' ∧ Shape s s' t l l' := by
-  obtain ⟨hch, hnd, hpub, hfr, hown, hlk, hcx, hnx, hcl, htk, hpv⟩ := h
+  obtain ⟨hch, hnd, hpub, hfr, hown, hlk, hcx, hnx, hcl, htk, hpv, htl⟩ := h
   obtain ⟨e1, e2, e3, e4, e5, e6, e7, e8⟩ := he
   simp only [step, hpc] at hs
   simp at hs; obtain ⟨rfl, -⟩ := hs
@@ -341,7 +342,7 @@ set_option maxHeartbeats 4000000 in
 theorem sinvl_step_bkLock {s s' : St} {t : Tid} {ev : Ev} {l : List Nat} {c : Ctx} {sl : Nat} {k : Nat}
     (h : SInvL s l) (he : EInv s) (hpc : s.pc t = .bkLock c sl k) (hs : step s t = some (s', ev)) :
     ∃ l', SInvL s' l' ∧ StepEff s t s' l l' ∧ Shape s s' t l l' := by
-  obtain ⟨hch, hnd, hpub, hfr, hown, hlk, hcx, hnx, hcl, htk, hpv⟩ := h
+  obtain ⟨hch, hnd, hpub, hfr, hown, hlk, hcx, hnx, hcl, htk, hpv, htl⟩ := h
   obtain ⟨e1, e2, e3, e4, e5, e6, e7, e8⟩ := he
   simp only [step, hpc] at hs
   split at hs
@@ -364,7 +365,7 @@ set_option maxHeartbeats 4000000 in
 theorem sinvl_step_bkSpin {s s' : St} {t : Tid} {ev : Ev} {l : List Nat} {c : Ctx} {sl : Nat} {k : Nat}
     (h : SInvL s l) (he : EInv s) (hpc : s.pc t = .bkSpin c sl k) (hs : step s t = some (s', ev)) :
     ∃ l', SInvL s' l' ∧ StepEff s t s' l l' ∧ Shape s s' t l l' := by
-  obtain ⟨hch, hnd, hpub, hfr, hown, hlk, hcx, hnx, hcl, htk, hpv⟩ := h
+  obtain ⟨hch, hnd, hpub, hfr, hown, hlk, hcx, hnx, hcl, htk, hpv, htl⟩ := h
   obtain ⟨e1, e2, e3, e4, e5, e6, e7, e8⟩ := he
   simp only [step, hpc] at hs
   split at hs
@@ -385,7 +386,7 @@ set_option maxHeartbeats 4000000 in
 theorem sinvl_step_bkLock2 {s s' : St} {t : Tid} {ev : Ev} {l : List Nat} {c : Ctx} {sl : Nat}
     (h : SInvL s l) (he : EInv s) (hpc : s.pc t = .bkLock2 c sl) (hs : step s t = some (s', ev)) :
     ∃ l', SInvL s' l' ∧ StepEff s t s' l l' ∧ Shape s s' t l l' := by
-  obtain ⟨hch, hnd, hpub, hfr, hown, hlk, hcx, hnx, hcl, htk, hpv⟩ := h
+  obtain ⟨hch, hnd, hpub, hfr, hown, hlk, hcx, hnx, hcl, htk, hpv, htl⟩ := h
   obtain ⟨e1, e2, e3, e4, e5, e6, e7, e8⟩ := he
   simp only [step, hpc] at hs
   split at hs
@@ -408,7 +409,7 @@ set_option maxHeartbeats 4000000 in
 theorem sinvl_step_bkSpin2 {s s' : St} {t : Tid} {ev : Ev} {l : List Nat} {c : Ctx} {sl : Nat}
     (h : SInvL s l) (he : EInv s) (hpc : s.pc t = .bkSpin2 c sl) (hs : step s t = some (s', ev)) :
     ∃ l', SInvL s' l' ∧ StepEff s t s' l l' ∧ Shape s s' t l l' := by
-  obtain ⟨hch, hnd, hpub, hfr, hown, hlk, hcx, hnx, hcl, htk, hpv⟩ := h
+  obtain ⟨hch, hnd, hpub, hfr, hown, hlk, hcx, hnx, hcl, htk, hpv, htl⟩ := h
   obtain ⟨e1, e2, e3, e4, e5, e6, e7, e8⟩ := he
   simp only [step, hpc] at hs
   split at hs
@@ -429,7 +430,7 @@ set_option maxHeartbeats 4000000 in
 theorem sinvl_step_bkUnlC {s s' : St} {t : Tid} {ev : Ev} {l : List Nat} {c : Ctx} {sl : Nat}
     (h : SInvL s l) (he : EInv s) (hpc : s.pc t = .bkUnlC c sl) (hs : step s t = some (s', ev)) :
     ∃ l', SInvL s' l' ∧ StepEff s t s' l l' ∧ Shape s s' t l l' := by
-  obtain ⟨hch, hnd, hpub, hfr, hown, hlk, hcx, hnx, hcl, htk, hpv⟩ := h
+  obtain ⟨hch, hnd, hpub, hfr, hown, hlk, hcx, hnx, hcl, htk, hpv, htl⟩ := h
   obtain ⟨e1, e2, e3, e4, e5, e6, e7, e8⟩ := he
   simp only [step, hpc] at hs
   simp at hs; obtain ⟨rfl, -⟩ := hs
@@ -443,7 +444,7 @@ set_option maxHeartbeats 4000000 in
 theorem sinvl_step_bkWait {s s' : St} {t : Tid} {ev : Ev} {l : List Nat} {c : Ctx} {sl : Nat} {k : Nat}
     (h : SInvL s l) (he : EInv s) (hpc : s.pc t = .bkWait c sl k) (hs : step s t = some (s', ev)) :
     ∃ l', SInvL s' l' ∧ StepEff s t s' l l' ∧ Shape s s' t l l' := by
-  obtain ⟨hch, hnd, hpub, hfr, hown, hlk, hcx, hnx, hcl, htk, hpv⟩ := h
+  obtain ⟨hch, hnd, hpub, hfr, hown, hlk, hcx, hnx, hcl, htk, hpv, htl⟩ := h
   obtain ⟨e1, e2, e3, e4, e5, e6, e7, e8⟩ := he
   simp only [step, hpc] at hs
   split at hs
@@ -475,7 +476,7 @@ set_option maxHeartbeats 4000000 in
 theorem sinvl_step_bkIn2 {s s' : St} {t : Tid} {ev : Ev} {l : List Nat} {c : Ctx} {sl : Nat}
     (h : SInvL s l) (he : EInv s) (hpc : s.pc t = .bkIn2 c sl) (hs : step s t = some (s', ev)) :
     ∃ l', SInvL s' l' ∧ StepEff s t s' l l' ∧ Shape s s' t l l' := by
-  obtain ⟨hch, hnd, hpub, hfr, hown, hlk, hcx, hnx, hcl, htk, hpv⟩ := h
+  obtain ⟨hch, hnd, hpub, hfr, hown, hlk, hcx, hnx, hcl, htk, hpv, htl⟩ := h
   obtain ⟨e1, e2, e3, e4, e5, e6, e7, e8⟩ := he
   simp only [step, hpc] at hs
   simp at hs; obtain ⟨rfl, -⟩ := hs
@@ -489,7 +490,7 @@ set_option maxHeartbeats 4000000 in
 theorem sinvl_step_bkChk {s s' : St} {t : Tid} {ev : Ev} {l : List Nat} {c : Ctx}
     (h : SInvL s l) (he : EInv s) (hpc : s.pc t = .bkChk c) (hs : step s t = some (s', ev)) :
     ∃ l', SInvL s' l' ∧ StepEff s t s' l l' ∧ Shape s s' t l l' := by
-  obtain ⟨hch, hnd, hpub, hfr, hown, hlk, hcx, hnx, hcl, htk, hpv⟩ := h
+  obtain ⟨hch, hnd, hpub, hfr, hown, hlk, hcx, hnx, hcl, htk, hpv, htl⟩ := h
   obtain ⟨e1, e2, e3, e4, e5, e6, e7, e8⟩ := he
   simp only [step, hpc] at hs
   cases c
@@ -500,5 +501,300 @@ theorem sinvl_step_bkChk {s s' : St} {t : Tid} {ev : Ev} {l : List Nat} {c : Ctx
   all_goals first
     | (constructor <;> intros <;> (try dsimp only at *) <;> grind [upd, Pub, pushNodeC, elimd, isUnlC, passive, pushNodePc, ctxNode, retry, Chain, Chain.upd, pub_facts]; done)
     | ((intros; (try dsimp only at *); grind [upd, postRet, opOf, postRetC, opOfC, opOfPc, postPc, elimRet, retOf, ctxOf, isPopPc, ctxPop, elimd, isUnlC, passive, pushNodePc, ctxNode, retry, pub_facts, lifo_push, lifo_pop_some, lifo_pop_none]))
+theorem pub_ctx {pc : PC} {sl : Nat} (h : pubSlot pc = some sl) :
+    ∃ c, ctxOf pc = some c ∧ isPopPc pc = ctxPop c ∧ pushNodePc pc = ctxNode c ∧ isUnlC pc = false ∧
+      passive pc = true ∧ postPc pc = none := by
+  cases pc <;> simp_all [pubSlot, ctxOf, isPopPc, pushNodePc, isUnlC, passive, postPc]
+
+set_option maxHeartbeats 4000000 in
+theorem sinvl_step_bkIn {s s' : St} {t : Tid} {ev : Ev} {l : List Nat} {c : Ctx} {sl : Nat} {k : Nat}
+    (h : SInvL s l) (he : EInv s) (hpc : s.pc t = .bkIn c sl k) (hs : step s t = some (s', ev)) :
+    ∃ l', SInvL s' l' ∧ StepEff s t s' l l' ∧ Shape s s' t l l' := by
+  obtain ⟨hch, hnd, hpub, hfr, hown, hlk, hcx, hnx, hcl, htk, hpv, htl⟩ := h
+  obtain ⟨e1, e2, e3, e4, e5, e6, e7, e8⟩ := he
+  simp only [step, hpc] at hs
+  split at hs
+  next x h hrec =>
+    split at hs
+    next hkind =>
+      obtain ⟨hpubh, hsth⟩ := e1 sl h hrec
+      obtain ⟨ch, hc1, hc2, hc3, hc4, hc5, hc6⟩ := pub_ctx hpubh
+      have hht : h ≠ t := by intro e; subst e; exact hkind rfl
+      have hkt := e6 t
+      have hkh := e6 h
+      have hpt' := e7 t
+      have hph' := e7 h
+      split at hs
+      next hpt =>
+        -- `t` pushes node `n`, `h` pops
+        cases c with
+        | pop => simp [hpc, isPopPc, ctxPop, hpt] at hpt'
+        | push n tv =>
+          have hpvt : s.pval t = some n := (hkt n (by simp [hpc, pushNodePc, ctxNode])).2
+          have hih : s.isPush h = false := by cases hq : s.isPush h <;> simp_all
+          cases ch with
+          | push n' tv' => simp [hc3, ctxNode, hih] at hkh
+          | pop =>
+            simp only [hpvt] at hs
+            simp at hs; obtain ⟨hs', -⟩ := hs
+            have hn : n ∉ l := fun hm => (hpub n hm).2 t (by simp [hpc, pushNodeC, elimd, isUnlC, passive, pushNodePc, ctxNode])
+            have hpm : ∀ a, Pub s a → Pub s' a := by
+              subst hs'
+              intro a hp; obtain ⟨hp1, hp2⟩ := hp
+              refine ⟨hp1, fun w => ?_⟩
+              have := hp2 w
+              dsimp only
+              grind [upd, pushNodeC, elimd, isUnlC, passive]
+            subst hs'
+            refine ⟨l, ?_, ?_, .pair t h (s.val n) hht.symm rfl ?_ ?_ ?_ ?_ ?_ ?_ (Or.inl rfl)⟩
+            · constructor <;> intros <;> (try dsimp only at *) <;> grind [upd, Pub, pushNodeC, elimd, isUnlC, passive, pushNodePc, ctxNode, retry, Chain, Chain.upd, pub_facts]
+            · constructor <;> intros <;> (try dsimp only at *) <;> grind [upd, Pub, pushNodeC, elimd, isUnlC, passive, pushNodePc, ctxNode, retry, pub_facts]
+            · grind [upd, postRet, opOf, postRetC, opOfC, opOfPc, postPc, elimRet, retOf, ctxOf, isPopPc, ctxPop, elimd, isUnlC, passive, pushNodePc, ctxNode]
+            · grind [upd, postRet, opOf, postRetC, opOfC, opOfPc, postPc, elimRet, retOf, ctxOf, isPopPc, ctxPop, elimd, isUnlC, passive, pushNodePc, ctxNode]
+            · grind [upd, postRet, opOf, postRetC, opOfC, opOfPc, postPc, elimRet, retOf, ctxOf, isPopPc, ctxPop, elimd, isUnlC, passive, pushNodePc, ctxNode]
+            · grind [upd, postRet, opOf, postRetC, opOfC, opOfPc, postPc, elimRet, retOf, ctxOf, isPopPc, ctxPop, elimd, isUnlC, passive, pushNodePc, ctxNode]
+            · (intro u; (try dsimp only); grind [upd, postRet, opOf, postRetC, opOfC, opOfPc, postPc, elimRet, retOf, ctxOf, isPopPc, ctxPop, elimd, isUnlC, passive, pushNodePc, ctxNode])
+            · (intro u; (try dsimp only); grind [upd, postRet, opOf, postRetC, opOfC, opOfPc, postPc, elimRet, retOf, ctxOf, isPopPc, ctxPop, elimd, isUnlC, passive, pushNodePc, ctxNode])
+      next hpt =>
+        -- `t` pops, `h` pushes
+        have hpt0 : s.isPush t = false := by cases hq : s.isPush t <;> simp_all
+        have hih : s.isPush h = true := by cases hq : s.isPush h <;> simp_all
+        cases c with
+        | push n tv => simp [hpc, pushNodePc, ctxNode, hpt0] at hkt
+        | pop =>
+          cases ch with
+          | pop => simp [hc2, ctxPop, hih] at hph'
+          | push n' tv' =>
+            have hpvh : s.pval h = some n' := (hkh n' (by simp [hc3, ctxNode])).2
+            simp only [hpvh] at hs
+            simp at hs; obtain ⟨hs', -⟩ := hs
+            have hpm : ∀ a, Pub s a → Pub s' a := by
+              subst hs'
+              intro a hp; obtain ⟨hp1, hp2⟩ := hp
+              refine ⟨hp1, fun w => ?_⟩
+              have := hp2 w
+              dsimp only
+              grind [upd, pushNodeC, elimd, isUnlC, passive]
+            subst hs'
+            have hpnh : pushNodeC (s.pc h) (s.status h) = some n' := by
+              simp [pushNodeC, elimd, hc4, hc5, hsth, hc3, ctxNode]
+            have hn : n' ∉ l := fun hm => (hpub n' hm).2 h hpnh
+            refine ⟨l, ?_, ?_, .pair h t (s.val n') hht rfl ?_ ?_ ?_ ?_ ?_ ?_ (Or.inr rfl)⟩
+            · constructor <;> intros <;> (try dsimp only at *) <;> grind [upd, Pub, pushNodeC, elimd, isUnlC, passive, pushNodePc, ctxNode, retry, Chain, Chain.upd, pub_facts]
+            · constructor <;> intros <;> (try dsimp only at *) <;> grind [upd, Pub, pushNodeC, elimd, isUnlC, passive, pushNodePc, ctxNode, retry, pub_facts]
+            · grind [upd, postRet, opOf, postRetC, opOfC, opOfPc, postPc, elimRet, retOf, ctxOf, isPopPc, ctxPop, elimd, isUnlC, passive, pushNodePc, ctxNode]
+            · grind [upd, postRet, opOf, postRetC, opOfC, opOfPc, postPc, elimRet, retOf, ctxOf, isPopPc, ctxPop, elimd, isUnlC, passive, pushNodePc, ctxNode]
+            · grind [upd, postRet, opOf, postRetC, opOfC, opOfPc, postPc, elimRet, retOf, ctxOf, isPopPc, ctxPop, elimd, isUnlC, passive, pushNodePc, ctxNode]
+            · grind [upd, postRet, opOf, postRetC, opOfC, opOfPc, postPc, elimRet, retOf, ctxOf, isPopPc, ctxPop, elimd, isUnlC, passive, pushNodePc, ctxNode]
+            · (intro u; (try dsimp only); grind [upd, postRet, opOf, postRetC, opOfC, opOfPc, postPc, elimRet, retOf, ctxOf, isPopPc, ctxPop, elimd, isUnlC, passive, pushNodePc, ctxNode])
+            · (intro u; (try dsimp only); grind [upd, postRet, opOf, postRetC, opOfC, opOfPc, postPc, elimRet, retOf, ctxOf, isPopPc, ctxPop, elimd, isUnlC, passive, pushNodePc, ctxNode])
+    next hkind =>
+      have hst := e4 t (by simp [hpc, preWait])
+      simp at hs; obtain ⟨rfl, -⟩ := hs
+      refine ⟨l, ?_, ?_, .silent rfl ?_ ?_⟩
+      · constructor <;> intros <;> (try dsimp only at *) <;> grind [upd, Pub, pushNodeC, elimd, isUnlC, passive, pushNodePc, ctxNode, retry, Chain, Chain.upd, pub_facts]
+      · constructor <;> intros <;> (try dsimp only at *) <;> grind [upd, Pub, pushNodeC, elimd, isUnlC, passive, pushNodePc, ctxNode, retry, pub_facts]
+      · (intros; (try dsimp only at *); grind [upd, postRet, opOf, postRetC, opOfC, opOfPc, postPc, elimRet, retOf, ctxOf, isPopPc, ctxPop, elimd, isUnlC, passive, pushNodePc, ctxNode, retry, pub_facts, lifo_push, lifo_pop_some, lifo_pop_none])
+      · (intros; (try dsimp only at *); grind [upd, postRet, opOf, postRetC, opOfC, opOfPc, postPc, elimRet, retOf, ctxOf, isPopPc, ctxPop, elimd, isUnlC, passive, pushNodePc, ctxNode, retry, pub_facts, lifo_push, lifo_pop_some, lifo_pop_none])
+  next x hrec =>
+    have hst := e4 t (by simp [hpc, preWait])
+    simp at hs; obtain ⟨rfl, -⟩ := hs
+    refine ⟨l, ?_, ?_, .silent rfl ?_ ?_⟩
+    · constructor <;> intros <;> (try dsimp only at *) <;> grind [upd, Pub, pushNodeC, elimd, isUnlC, passive, pushNodePc, ctxNode, retry, Chain, Chain.upd, pub_facts]
+    · constructor <;> intros <;> (try dsimp only at *) <;> grind [upd, Pub, pushNodeC, elimd, isUnlC, passive, pushNodePc, ctxNode, retry, pub_facts]
+    · (intros; (try dsimp only at *); grind [upd, postRet, opOf, postRetC, opOfC, opOfPc, postPc, elimRet, retOf, ctxOf, isPopPc, ctxPop, elimd, isUnlC, passive, pushNodePc, ctxNode, retry, pub_facts, lifo_push, lifo_pop_some, lifo_pop_none])
+    · (intros; (try dsimp only at *); grind [upd, postRet, opOf, postRetC, opOfC, opOfPc, postPc, elimRet, retOf, ctxOf, isPopPc, ctxPop, elimd, isUnlC, passive, pushNodePc, ctxNode, retry, pub_facts, lifo_push, lifo_pop_some, lifo_pop_none])
+
+theorem sinvl_step {s s' : St} {t : Tid} {ev : Ev} {l : List Nat}
+    (h : SInvL s l) (he : EInv s) (hs : step s t = some (s', ev)) :
+    ∃ l', SInvL s' l' ∧ StepEff s t s' l l' ∧ Shape s s' t l l' := by
+  cases hpc : s.pc t with
+  | idle => simp [step, hpc] at hs
+  | done r => simp [step, hpc] at hs
+  | pushLd n => exact sinvl_step_pushLd h he hpc hs
+  | pushSt n tv => exact sinvl_step_pushSt h he hpc hs
+  | pushCas n tv => exact sinvl_step_pushCas h he hpc hs
+  | popLd1  => exact sinvl_step_popLd1 h he hpc hs
+  | popLd2 p => exact sinvl_step_popLd2 h he hpc hs
+  | popNext a => exact sinvl_step_popNext h he hpc hs
+  | popCas a nx => exact sinvl_step_popCas h he hpc hs
+  | popClr a r => exact sinvl_step_popClr h he hpc hs
+  | bkSt c sl k => exact sinvl_step_bkSt h he hpc hs
+  | bkLock c sl k => exact sinvl_step_bkLock h he hpc hs
+  | bkSpin c sl k => exact sinvl_step_bkSpin h he hpc hs
+  | bkIn c sl k => exact sinvl_step_bkIn h he hpc hs
+  | bkUnlC c sl => exact sinvl_step_bkUnlC h he hpc hs
+  | bkWait c sl k => exact sinvl_step_bkWait h he hpc hs
+  | bkLock2 c sl => exact sinvl_step_bkLock2 h he hpc hs
+  | bkSpin2 c sl => exact sinvl_step_bkSpin2 h he hpc hs
+  | bkIn2 c sl => exact sinvl_step_bkIn2 h he hpc hs
+  | bkChk c => exact sinvl_step_bkChk h he hpc hs
+
+/-! ### Invocation and return -/
+
+/-- The operation of the sequential specification: the inputs of the back-off rounds are dropped. -/
+def specOp (op : GOp) : GOp := if op.name = "push" then ⟨"push", op.args.take 1⟩ else ⟨op.name, []⟩
+
+theorem postRetC_val (pc : PC) (st : Nat) (val : Nat → Int) (pv : Option Nat) (k : Nat) (v : Int)
+    (h : ∀ n, pv = some n → n ≠ k) : postRetC pc st (upd val k v) pv = postRetC pc st val pv := by
+  unfold postRetC
+  split
+  · cases ctxOf pc with
+    | none => rfl
+    | some c =>
+      cases c with
+      | push n tv => rfl
+      | pop =>
+        cases pv with
+        | none => rfl
+        | some n => simp [elimRet, retOf, upd, h n rfl]
+  · rfl
+
+theorem opOfC_val (pc : PC) (st : Nat) (val : Nat → Int) (k : Nat) (v : Int)
+    (h : ∀ n, pushNodePc pc = some n → n ≠ k) : opOfC pc st (upd val k v) = opOfC pc st val := by
+  unfold opOfC opOfPc
+  split
+  · rfl
+  · cases hq : pushNodePc pc with
+    | none => rfl
+    | some n => simp [upd, h n hq]
+
+structure InvokeEff (s : St) (t : Tid) (op : GOp) (s' : St) (l : List Nat) : Prop where
+  posts : ∀ u, postRet s' u = postRet s u
+  ops : ∀ u, u ≠ t → opOf s' u = opOf s u
+  was : s.pc t = .idle
+  now : opOf s' t = some (specOp op)
+  nowpost : postRet s' t = none
+  idle : ∀ u, u ≠ t → (s'.pc u = .idle ↔ s.pc u = .idle)
+  busy : s'.pc t ≠ .idle
+  abs : l.map s'.val = l.map s.val
+  pubmono : ∀ a, Pub s a → Pub s' a
+  tkmono : ∀ a u, s.taken a = some u → s'.taken a = some u
+  elmono : ∀ a, s.elim a = true → s'.elim a = true
+
+set_option maxHeartbeats 4000000 in
+theorem sinvl_invoke {s s' : St} {t : Tid} {op : GOp} {l : List Nat}
+    (h : SInvL s l) (he : EInv s) (hs : invoke s t op = some s') : SInvL s' l ∧ InvokeEff s t op s' l := by
+  obtain ⟨hch, hnd, hpub, hfr, hown, hlk, hcx, hnx, hcl, htk, hpv, htl⟩ := h
+  obtain ⟨e1, e2, e3, e4, e5, e6, e7, e8⟩ := he
+  obtain ⟨name, args⟩ := op
+  have hfr' : ∀ u n, pushNodePc (s.pc u) = some n → n ≠ s.cnt := fun u n h => Nat.ne_of_lt (hfr u n h)
+  have e8' : ∀ u n, s.pval u = some n → n ≠ s.cnt := fun u n h => Nat.ne_of_lt (e8 u n h)
+  unfold invoke at hs
+  split at hs
+  next v r hpc hname hargs =>
+    simp at hs; subst hs
+    dsimp only at hname hargs; subst hname hargs
+    refine ⟨?_, ?_⟩
+    · constructor <;> intros <;> (try dsimp only at *) <;> grind [upd, Pub, pushNodeC, elimd, isUnlC, passive, pushNodePc, ctxNode, retry, Chain, Chain.upd, pub_facts]
+    · constructor
+      · intro u
+        dsimp only [postRet]
+        by_cases hut : u = t
+        · subst hut; simp [upd, hpc, postRetC, elimd, isUnlC, passive, postPc]
+        · simp only [upd_other _ _ _ _ hut]
+          exact postRetC_val _ _ _ _ _ _ (e8' u)
+      · intro u hut
+        dsimp only [opOf]
+        simp only [upd_other _ _ _ _ hut]
+        exact opOfC_val _ _ _ _ _ (hfr' u)
+      · exact hpc
+      · simp [opOf, opOfC, opOfPc, upd, elimd, isUnlC, passive, pushNodePc, specOp]
+      · (intros; (try dsimp only at *); grind [upd, postRet, opOf, postRetC, opOfC, opOfPc, postPc, elimRet, retOf, ctxOf, isPopPc, ctxPop, elimd, isUnlC, passive, pushNodePc, ctxNode, retry, pub_facts, lifo_push, lifo_pop_some, lifo_pop_none])
+      · (intros; (try dsimp only at *); grind [upd])
+      · simp [upd]
+      · apply List.map_congr_left
+        intro a ha
+        have := (hpub a ha).1
+        simp [upd]; omega
+      · (intros; (try dsimp only at *); grind [upd, Pub, pushNodeC, elimd, isUnlC, passive, pushNodePc, ctxNode])
+      · (intros; assumption)
+      · (intros; assumption)
+  next _ _ _ hpc hname =>
+    simp at hs; subst hs
+    dsimp only at hname; subst hname
+    refine ⟨?_, ?_⟩
+    · constructor <;> intros <;> (try dsimp only at *) <;> grind [upd, Pub, pushNodeC, elimd, isUnlC, passive, pushNodePc, ctxNode, retry, Chain, Chain.upd, pub_facts]
+    · constructor
+      · (intros; (try dsimp only at *); grind [upd, postRet, opOf, postRetC, opOfC, opOfPc, postPc, elimRet, retOf, ctxOf, isPopPc, ctxPop, elimd, isUnlC, passive, pushNodePc, ctxNode, retry, pub_facts, lifo_push, lifo_pop_some, lifo_pop_none])
+      · (intros; (try dsimp only at *); grind [upd, postRet, opOf, postRetC, opOfC, opOfPc, postPc, elimRet, retOf, ctxOf, isPopPc, ctxPop, elimd, isUnlC, passive, pushNodePc, ctxNode, retry, pub_facts, lifo_push, lifo_pop_some, lifo_pop_none])
+      · exact hpc
+      · simp [opOf, opOfC, opOfPc, upd, elimd, isUnlC, passive, pushNodePc, isPopPc, specOp]
+      · (intros; (try dsimp only at *); grind [upd, postRet, opOf, postRetC, opOfC, opOfPc, postPc, elimRet, retOf, ctxOf, isPopPc, ctxPop, elimd, isUnlC, passive, pushNodePc, ctxNode, retry, pub_facts, lifo_push, lifo_pop_some, lifo_pop_none])
+      · (intros; (try dsimp only at *); grind [upd])
+      · simp [upd]
+      · rfl
+      · (intros; (try dsimp only at *); grind [upd, Pub, pushNodeC, elimd, isUnlC, passive, pushNodePc, ctxNode])
+      · (intros; assumption)
+      · (intros; assumption)
+  next => simp at hs
+
+structure ResultEff (s : St) (t : Tid) (r : GRet) (s' : St) : Prop where
+  was : postRet s t = some r
+  posts : ∀ u, postRet s' u = if u = t then none else postRet s u
+  ops : ∀ u, opOf s' u = opOf s u
+  now : s'.pc t = .idle
+  idle : ∀ u, u ≠ t → (s'.pc u = .idle ↔ s.pc u = .idle)
+  val : s'.val = s.val
+  pubmono : ∀ a, Pub s a → Pub s' a
+  tkmono : ∀ a u, s.taken a = some u → s'.taken a = some u
+  elmono : ∀ a, s.elim a = true → s'.elim a = true
+
+set_option maxHeartbeats 4000000 in
+theorem sinvl_result {s s' : St} {t : Tid} {r : GRet} {l : List Nat}
+    (h : SInvL s l) (he : EInv s) (hs : result s t = some (s', r)) : SInvL s' l ∧ ResultEff s t r s' := by
+  obtain ⟨hch, hnd, hpub, hfr, hown, hlk, hcx, hnx, hcl, htk, hpv, htl⟩ := h
+  obtain ⟨e1, e2, e3, e4, e5, e6, e7, e8⟩ := he
+  unfold result at hs
+  split at hs
+  next r' hpc =>
+    simp at hs; obtain ⟨rfl, rfl⟩ := hs
+    refine ⟨?_, ?_⟩
+    · constructor <;> intros <;> (try dsimp only at *) <;> grind [upd, Pub, pushNodeC, elimd, isUnlC, passive, pushNodePc, ctxNode, retry, Chain, Chain.upd, pub_facts]
+    · constructor
+      · simp [postRet, postRetC, hpc, elimd, isUnlC, passive, postPc]
+      · (intros; (try dsimp only at *); grind [upd, postRet, opOf, postRetC, opOfC, opOfPc, postPc, elimRet, retOf, ctxOf, isPopPc, ctxPop, elimd, isUnlC, passive, pushNodePc, ctxNode, retry, pub_facts, lifo_push, lifo_pop_some, lifo_pop_none])
+      · (intros; (try dsimp only at *); grind [upd, postRet, opOf, postRetC, opOfC, opOfPc, postPc, elimRet, retOf, ctxOf, isPopPc, ctxPop, elimd, isUnlC, passive, pushNodePc, ctxNode, retry, pub_facts, lifo_push, lifo_pop_some, lifo_pop_none])
+      · simp [upd]
+      · (intros; (try dsimp only at *); grind [upd])
+      · rfl
+      · (intros; (try dsimp only at *); grind [upd, Pub, pushNodeC, elimd, isUnlC, passive, pushNodePc, ctxNode])
+      · (intros; assumption)
+      · (intros; assumption)
+  next => simp at hs
+
+/-! ### Reachable states -/
+
+/-- The invariant of the model: chain structure and collision protocol. -/
+def MInv (s : St) : Prop := (∃ l, SInvL s l) ∧ EInv s
+
+theorem minv_init : MInv init := ⟨⟨[], sinv_init⟩, einv_init⟩
+
+theorem minv_apply {s s' : St} {t : Tid} {a : Act} {o : Obs} (h : MInv s)
+    (hap : model.apply s t a = some (s', o)) : MInv s' := by
+  obtain ⟨⟨l, hl⟩, he⟩ := h
+  cases a with
+  | invoke op =>
+    simp only [Model.apply, model, Option.map_eq_some_iff] at hap
+    obtain ⟨s1, hs1, heq⟩ := hap
+    simp only [Prod.mk.injEq] at heq
+    obtain ⟨rfl, -⟩ := heq
+    exact ⟨⟨l, (sinvl_invoke hl he hs1).1⟩, einv_invoke he hs1⟩
+  | step =>
+    simp only [Model.apply, model, Option.map_eq_some_iff] at hap
+    obtain ⟨⟨s1, e⟩, hs1, heq⟩ := hap
+    simp only [Prod.mk.injEq] at heq
+    obtain ⟨rfl, -⟩ := heq
+    obtain ⟨l', hl', -⟩ := sinvl_step hl he hs1
+    exact ⟨⟨l', hl'⟩, einv_step he hs1⟩
+  | ret =>
+    simp only [Model.apply, model, Option.map_eq_some_iff] at hap
+    obtain ⟨⟨s1, r⟩, hs1, heq⟩ := hap
+    simp only [Prod.mk.injEq] at heq
+    obtain ⟨rfl, -⟩ := heq
+    exact ⟨⟨l, (sinvl_result hl he hs1).1⟩, einv_result he hs1⟩
+
+theorem minv_reachable (s : St) (h : model.Reachable init s) : MInv s :=
+  model.inv_reachable MInv init minv_init (fun _ _ _ _ _ hi hap => minv_apply hi hap) s h
 
 end CdsVerif.Algo.Elim
